@@ -39,16 +39,17 @@ Theorem c15_witnesses_fixed : forall tab m,
   roundtrip_prop tcfg_fixed tab m.
 Proof. exact witnesses_roundtrip. Qed.
 Print Assumptions c15_witnesses_fixed.
-(* ---- findings that remain after the fixes *)
+(* ---- the three defects repaired last (tcfg_w2 = the code before fixes/C15-copyblob-reader, C15-undefined-type,
+        C15-volatile-marker.diff; tcfg_fixed = with them) *)
 Theorem c15_volatile_refuted :
-  exists m', wf_modul w_volatile = true /\ text_roundtrip tcfg_fixed [] w_volatile = Ok m' /\ m' <> w_volatile
-             /\ m' = norm tcfg_fixed w_volatile.
+  exists m', wf_modul w_volatile = true /\ text_roundtrip tcfg_w2 [] w_volatile = Ok m' /\ m' <> w_volatile
+             /\ m' = norm tcfg_w2 w_volatile.
 Proof. exact volatile_refuted. Qed.
 Print Assumptions c15_volatile_refuted.
-Theorem c15_copyblob_refuted : wf_modul w_copyblob = true /\ text_roundtrip tcfg_fixed [] w_copyblob = Internal KeyError.
+Theorem c15_copyblob_refuted : wf_modul w_copyblob = true /\ text_roundtrip tcfg_w2 [] w_copyblob = Internal KeyError.
 Proof. exact copyblob_refuted. Qed.
 Print Assumptions c15_copyblob_refuted.
-Theorem c15_undefined_refuted : wf_modul w_undef = true /\ text_roundtrip tcfg_fixed [] w_undef = Internal KeyError.
+Theorem c15_undefined_refuted : wf_modul w_undef = true /\ text_roundtrip tcfg_w2 [] w_undef = Internal KeyError.
 Proof. exact undefined_refuted. Qed.
 Print Assumptions c15_undefined_refuted.
 (* the replace_use defects of ppci/ir.py reached through Reader.define_value (baseline + C15 fixes = tcfg_noru);
@@ -84,12 +85,18 @@ Print Assumptions c15_kind_unop.
 Theorem c15_kind_cast : forall c N t n a, stmt_ok c N (RCast t n a).
 Proof. exact kind_cast. Qed.
 Print Assumptions c15_kind_cast.
-Theorem c15_kind_load : forall c N t n a, stmt_ok c N (RLoad t n a).
+Theorem c15_kind_load : forall c N t n a vol, rprintable_instr c (RLoad t n a vol) = true -> stmt_ok c N (RLoad t n a vol).
 Proof. exact kind_load. Qed.
 Print Assumptions c15_kind_load.
-Theorem c15_kind_store : forall c N x a, stmt_ok c N (RStore x a).
+Theorem c15_kind_store : forall c N x a vol, rprintable_instr c (RStore x a vol) = true -> stmt_ok c N (RStore x a vol).
 Proof. exact kind_store. Qed.
 Print Assumptions c15_kind_store.
+Theorem c15_kind_copyblob : forall c N d s n, rprintable_instr c (RCopyBlob d s n) = true -> stmt_ok c N (RCopyBlob d s n).
+Proof. exact kind_copyblob. Qed.
+Print Assumptions c15_kind_copyblob.
+Theorem c15_kind_undefined : forall c N t n, rprintable_instr c (RUndef t n) = true -> stmt_ok c N (RUndef t n).
+Proof. exact kind_undef. Qed.
+Print Assumptions c15_kind_undefined.
 Theorem c15_kind_alloc : forall c N t n s al, stmt_ok c N (RAlloc t n s al).
 Proof. exact kind_alloc. Qed.
 Print Assumptions c15_kind_alloc.
@@ -171,6 +178,18 @@ Theorem c15_roundtrip : forall c fr fp m,
   print_text c fr (norm c m) = print_text c fr m /\ print_tokens c fr (norm c m) = print_tokens c fr m.
 Proof. exact text_roundtrip_all. Qed.
 Print Assumptions c15_roundtrip.
+(* with everything repaired the normal form only sorts phi inputs: volatile flags are kept, CopyBlob and Undefined
+   are printable *)
+Theorem c15_norm_keeps_volatile : forall c f i, fx_volatile c = true -> (forall v n t ins, i <> IPhi v n t ins) ->
+  norm_instr c f i = i.
+Proof. exact norm_keeps_volatile. Qed.
+Print Assumptions c15_norm_keeps_volatile.
+Theorem c15_wave3_fixed : forall m, In m [w_volatile; w_copyblob; w_undef] -> roundtrip_prop tcfg_fixed [] m.
+Proof. exact wave3_roundtrip. Qed.
+Print Assumptions c15_wave3_fixed.
+Theorem c15_volatile_kept : text_roundtrip tcfg_fixed [] w_volatile = Ok w_volatile.
+Proof. exact volatile_kept. Qed.
+Print Assumptions c15_volatile_kept.
 Theorem c15_roundtrip_fixed : forall fr fp m, wf_modul m = true -> printable tcfg_fixed fr fp m = true ->
   read_text tcfg_fixed fp (print_text tcfg_fixed fr m) = Ok (norm tcfg_fixed m) /\
   print_text tcfg_fixed fr (norm tcfg_fixed m) = print_text tcfg_fixed fr m.
